@@ -222,6 +222,10 @@ def oracle(item, impl):
     s = list(sigs)
     if len(impl) != len(steps) + 1:
         return "malformed observation"
+    for entry in impl:
+        if not (isinstance(entry, list) and len(entry) == 3 and isinstance(entry[0], list)
+                and isinstance(entry[1], list) and isinstance(entry[2], int)):
+            return "malformed observation"
     for k, entry in enumerate(impl):
         lg, shot, fresh_eq = entry
         before = list(s)
